@@ -16,6 +16,7 @@ import (
 	"time"
 
 	"github.com/onflow/atree"
+	tu "github.com/onflow/atree/test_utils"
 )
 
 // ---------------------------------------------------------------------------------------------
@@ -350,6 +351,18 @@ func c16State(seed int64, blobs int) (*World, []*Node, error) {
 	hist := &HistCfg{DescendPct: 20, PopOnChild: true}
 	for i := 0; i < 120; i++ {
 		if err := w.Step(m, PhaseGrow, hist); err != nil {
+			return nil, nil, err
+		}
+	}
+	// a map (outside the model, never stepped) whose values are blobs: their Encode yields / fails on demand inside
+	// map data slabs
+	bm, err := atree.NewMap(w.st, addrOf(6, 0x20), atree.NewDefaultDigesterBuilder(), TI{ID: 4})
+	if err != nil {
+		return nil, nil, err
+	}
+	for i := 0; i < blobs/2; i++ {
+		v := BlobValue{ID: uint64(i + 1), Pad: uint32(30 + w.rng.Intn(120))}
+		if _, err := bm.Set(w.cb.Compare, w.cb.HashInput, tu.Uint64Value(uint64(i)), v); err != nil {
 			return nil, nil, err
 		}
 	}
